@@ -248,13 +248,15 @@ func genC16(r *Rand, tier string, ord int) *Trial {
 	case fam <= 1:
 		t.Kind = "valid"
 		lay2 := genLayout(r)
-		lay2.Desc = lay.Desc
+		lay2.Desc, lay2.Sep, lay2.Lead = lay.Desc, lay.Sep, lay.Lead
 		t.Case = Case{Cmd: "readers", Files: map[string]string{"fasta": text, "fasta2": a.FASTA(lay2)}}
 		t.Params["names"] = strings.Join(a.Names, ",")
 		t.Params["seqs"] = strings.Join(a.Seqs, ",")
-		if lay.Desc {
-			t.Params["desc"] = "1"
+		hs := make([]string, len(a.Names))
+		for i, n := range a.Names {
+			hs[i] = lay.Header(i, n)
 		}
+		t.Params["headers"] = strings.Join(hs, "\x00")
 		t.Runs = genRunCfgs(r, 8)
 	case fam == 2:
 		m := c16Mutations[(ord/4)%len(c16Mutations)]
@@ -285,13 +287,7 @@ func checkC16(t *Trial, ctx *Ctx) *Failure {
 	case t.Kind == "valid":
 		names := strings.Split(t.Params["names"], ",")
 		seqs := strings.Split(t.Params["seqs"], ",")
-		descs := make([]string, len(names))
-		for i, n := range names {
-			descs[i] = n
-			if t.Params["desc"] == "1" {
-				descs[i] = fmt.Sprintf("%s sample %d", n, i)
-			}
-		}
+		descs := strings.Split(t.Params["headers"], "\x00")
 		a := Aln{Names: names, Seqs: seqs}
 		split := false
 		for i := range t.Runs {
